@@ -382,6 +382,28 @@ func ruleShimChannels(c *Ctx, p *Prog, ruleC, ruleB string) {
 					}
 				}
 			}
+			// who may send: SendClientMessage and Close (client side), the reader goroutine (server
+			// side). A second sending goroutine (a backlog flusher, a prefetcher) can be overtaken by
+			// or overtake the direct path: messages arrive out of order.
+			strayS := ""
+			for _, op := range sc.Ops {
+				if op.Kind != "send" {
+					continue
+				}
+				own := Owner(op.Instr)
+				top := FuncName(TopFunc(own))
+				switch sc.Field {
+				case "clientMessages":
+					if top != "agent/websockets.(*Connection).SendClientMessage" && top != "agent/websockets.(*Connection).Close" {
+						strayS = "sent on in " + FuncName(own) + " at " + p.Pos(op.Instr.Pos())
+					}
+				case "serverMessages":
+					if !goBodyOnce(own) || len(Calls(own, "(*github.com/gorilla/websocket.Conn).ReadMessage", "(*github.com/gorilla/websocket.Conn).NextReader")) == 0 {
+						strayS = "sent on in " + FuncName(own) + " at " + p.Pos(op.Instr.Pos())
+					}
+				}
+			}
+			c.Check(ruleC, "Connection."+sc.Field+":sole-sending-side", p, posOfOps(sc.Ops), strayS == "", "the queue is fed from one place (SendClientMessage/Close, resp. the reader goroutine)", "channel "+sc.Field+" is also "+strayS+": two feeding paths (a direct one and a goroutine draining a backlog, say) are not ordered with respect to each other — messages can overtake each other")
 			c.Check(ruleC, "Connection."+sc.Field+":sole-receiver", p, posOfOps(sc.Ops), stray == "" && nrecv > 0, "the queue has one receiving side (polls / the writer goroutine)", "channel "+sc.Field+" is "+stray+": messages taken there never reach the side they were sent to (e.g. a drain after the backend closed discards what the client has not polled yet)")
 		}
 		// blocking sends in non-goroutine code
@@ -507,26 +529,49 @@ func ruleShimSessionIDs(c *Ctx, p *Prog, rule string) {
 		return
 	}
 	in := se.Inner
-	st := c.UniqueCall(rule, p, in, false, "(*sync.Map).Store")
-	if st == nil {
-		return
-	}
-	key := Args(CallOf(st))[1]
-	fromAdd, fromLoad := false, false
-	SliceBack(key, func(v ssa.Value) bool {
-		if call, ok := v.(*ssa.Call); ok {
-			switch CalleeName(call.Common()) {
-			case "sync/atomic.AddUint64", "sync/atomic.AddInt64", "sync/atomic.AddUint32", "sync/atomic.AddInt32", "(*sync/atomic.Uint64).Add", "(*sync/atomic.Int64).Add":
-				fromAdd = true
-			case "sync/atomic.LoadUint64", "sync/atomic.LoadInt64", "(*sync/atomic.Uint64).Load", "(*sync/atomic.Int64).Load":
-				fromLoad = true
-			case "github.com/google/uuid.New", "github.com/google/uuid.NewRandom":
-				fromAdd = true
+	var sts []ssa.Instruction
+	EachInstr(in, func(i ssa.Instruction) {
+		if cc := CallOf(i); cc != nil {
+			switch CalleeName(cc) {
+			case "(*sync.Map).Store", "(*sync.Map).LoadOrStore", "(*sync.Map).Swap", "(*sync.Map).CompareAndSwap":
+				sts = append(sts, i)
 			}
 		}
-		return true
 	})
-	c.Check(rule, "open:session-id-is-unique", p, st.Pos(), fromAdd && !fromLoad, "the session-table key derives from an atomic fetch-and-increment of the session counter: no two open calls get the same ID", "the session ID stored in the table does not derive (only) from an atomic increment of the session counter (increment: "+fmt.Sprint(fromAdd)+", plain load: "+fmt.Sprint(fromLoad)+"): two overlapping open calls can be given the same ID, the second connection replaces the first in the table and each client then polls/sends on the other's websocket")
+	if len(sts) == 0 {
+		c.Bad(rule, "open:session-id-is-unique", p, in.Pos(), "the open endpoint stores no connection in the session table")
+		return
+	}
+	st := sts[0]
+	key := Args(CallOf(st))[1]
+	isAdd := func(v ssa.Value) bool {
+		if call, ok := v.(*ssa.Call); ok {
+			switch CalleeName(call.Common()) {
+			case "sync/atomic.AddUint64", "sync/atomic.AddInt64", "sync/atomic.AddUint32", "sync/atomic.AddInt32", "(*sync/atomic.Uint64).Add", "(*sync/atomic.Int64).Add", "github.com/google/uuid.New", "github.com/google/uuid.NewRandom":
+				return true
+			}
+		}
+		return false
+	}
+	fromAdd, fromLoad := true, false
+	where := ""
+	for _, s := range sts {
+		k := Args(CallOf(s))[1]
+		if !onEveryPathFrom(k, isAdd) {
+			fromAdd = false
+			where = p.Pos(s.Pos())
+		}
+		SliceBack(k, func(v ssa.Value) bool {
+			if call, ok := v.(*ssa.Call); ok {
+				switch CalleeName(call.Common()) {
+				case "sync/atomic.LoadUint64", "sync/atomic.LoadInt64", "(*sync/atomic.Uint64).Load", "(*sync/atomic.Int64).Load":
+					fromLoad = true
+				}
+			}
+			return true
+		})
+	}
+	c.Check(rule, "open:session-id-is-unique", p, st.Pos(), fromAdd && !fromLoad, fmt.Sprintf("%d store(s) into the session table: on every path the key derives from an atomic fetch-and-increment of the session counter: no two open calls get the same ID", len(sts)), "the session ID stored in the table "+where+" does not derive on every path from an atomic increment of the session counter (increment on every path: "+fmt.Sprint(fromAdd)+", plain load: "+fmt.Sprint(fromLoad)+"): two open calls can be given (or choose) the same ID, the second connection replaces the first in the table or collides with a generated ID, and each client then polls/sends on the other's websocket")
 	// the ID reported to the client is the stored key
 	as := AllocsOf(in, "agent/websockets.sessionMessage")
 	ok := false
@@ -843,6 +888,73 @@ func ruleSharedScratch(c *Ctx, p *Prog, rule string, pkgs ...string) {
 							c.Bad(rule, "shared-scratch:global:"+g.Name(), p, w.Pos(), "package-level byte storage "+g.Name()+" is written in "+FuncName(fn)+": concurrent requests share it")
 						}
 					}
+				}
+			})
+		}
+	}
+	// append(x.f, …) whose result is used as a value of its own (not stored back into x.f): when
+	// x.f has spare capacity the appended bytes are written into x.f's backing array, which every
+	// user of x shares — two concurrent activations overwrite each other's bytes. (A slice made
+	// from a string or literal usually has spare capacity: allocation sizes are rounded up.)
+	for _, pk := range pkgs {
+		for _, fn := range p.AllFuncsIn(pk) {
+			EachInstrRaw(fn, func(i ssa.Instruction) {
+				call, ok := i.(*ssa.Call)
+				if !ok {
+					return
+				}
+				b, isB := call.Call.Value.(*ssa.Builtin)
+				if !isB || b.Name() != "append" || len(call.Call.Args) == 0 {
+					return
+				}
+				dst := call.Call.Args[0]
+				if !isByteStore(dst.Type()) {
+					return
+				}
+				ld, isLd := dst.(*ssa.UnOp)
+				if !isLd || ld.Op != token.MUL {
+					return
+				}
+				var addr ssa.Value
+				switch a := ld.X.(type) {
+				case *ssa.FieldAddr:
+					// a field of the function's own fresh value is private
+					if al, isAl := a.X.(*ssa.Alloc); isAl && al.Parent() == fn {
+						return
+					}
+					addr = a
+				case *ssa.Global:
+					addr = a
+				default:
+					return
+				}
+				// stored back into the same place?
+				back := false
+				var follow func(v ssa.Value, d int)
+				follow = func(v ssa.Value, d int) {
+					if d > 4 {
+						return
+					}
+					for _, r := range Refs(v) {
+						switch x := r.(type) {
+						case *ssa.Store:
+							if x.Val == v && PathOf(x.Addr) == PathOf(addr) {
+								back = true
+							}
+						case *ssa.Phi:
+							follow(x, d+1)
+						case *ssa.Call:
+							if bb, ok := x.Call.Value.(*ssa.Builtin); ok && bb.Name() == "append" && len(x.Call.Args) > 0 && x.Call.Args[0] == v {
+								follow(x, d+1)
+							}
+						case *ssa.Slice:
+							follow(x, d+1)
+						}
+					}
+				}
+				follow(call, 0)
+				if !back {
+					c.Bad(rule, "shared-scratch:append-to-shared-field:"+FuncName(fn), p, call.Pos(), "append("+PathOf(dst)+", …) in "+FuncName(fn)+" builds a new value on top of a slice that lives in a shared object and is not stored back: with spare capacity the appended bytes land in the shared backing array, so concurrent activations overwrite each other's output (one client's page carries another's URL)")
 				}
 			})
 		}
@@ -1447,4 +1559,62 @@ func plainStdLogger(v ssa.Value) bool {
 		}
 	}
 	return true
+}
+
+// onEveryPathFrom: v contains a value accepted by src on every control-flow
+// path (every edge of every phi on the way), not merely on one of them.
+func onEveryPathFrom(v ssa.Value, src func(ssa.Value) bool) bool {
+	memo := map[ssa.Value]bool{}
+	var rec func(v ssa.Value, d int) bool
+	rec = func(v ssa.Value, d int) bool {
+		if v == nil || d > 40 {
+			return false
+		}
+		if r, ok := memo[v]; ok {
+			return r
+		}
+		memo[v] = false
+		r := false
+		if src(v) {
+			r = true
+		} else if phi, ok := v.(*ssa.Phi); ok {
+			r = true
+			for _, e := range phi.Edges {
+				if e == v {
+					continue
+				}
+				if !rec(e, d+1) {
+					r = false
+				}
+			}
+		} else if u, ok := v.(*ssa.UnOp); ok && u.Op == token.MUL {
+			if cell := resolveCell(u.X); cell != nil && isLocalCell(cell) {
+				ss := storesTo(cell)
+				r = len(ss) > 0
+				for _, s := range ss {
+					if !rec(s, d+1) {
+						r = false
+					}
+				}
+			} else {
+				r = rec(u.X, d+1)
+			}
+		} else {
+			// one step of SliceBack: any operand suffices
+			first := true
+			SliceBack(v, func(w ssa.Value) bool {
+				if first {
+					first = false
+					return true
+				}
+				if rec(w, d+1) {
+					r = true
+				}
+				return false
+			})
+		}
+		memo[v] = r
+		return r
+	}
+	return rec(v, 0)
 }
